@@ -502,6 +502,35 @@ def k5(rep):
                               "with no conditional open (state %s) the directive is not reported as unbalanced (%s)" % (sname[init], m))
 
 
+def k9(rep):
+    """Integer and float literals with a radix prefix: every digit consumed is compared with the radix."""
+    f = common.extract("scan.c", trees=["scanNumber"])
+    fn = f.func("scanNumber")
+    n = 0
+    for lp in walk(fn["body"]):
+        if lp["k"] not in ("ForStmt", "WhileStmt"):
+            continue
+        cond = lp["c"][1] if lp["k"] == "ForStmt" else lp["c"][0]
+        if cond is None or "isupper" not in render(cond) and not any(c.get("callee") in ("isupper", "__isupper") for c in calls(cond)) \
+                and "_ISupper" not in render(cond):
+            continue
+        n += 1
+        body = lp["c"][3] if lp["k"] == "ForStmt" else lp["c"][1]
+        checks = [x for x in walk(body) if x["k"] == "BinaryOperator" and x["op"] in ("<", "<=", ">", ">=")
+                  and any(y["k"] == "DeclRefExpr" and y["n"] == "rad" for y in walk(x))]
+        checks += [x for x in walk(cond) if x["k"] == "BinaryOperator" and x["op"] in ("<", "<=", ">", ">=")
+                   and any(y["k"] == "DeclRefExpr" and y["n"] == "rad" for y in walk(x))]
+        key = "radix-digit-checked@loop%d" % n
+        if checks:
+            rep.ok("K9", key, sample={"site": "scan.c:%d" % lp["l"], "test": render(checks[0])[:80]})
+        else:
+            rep.violation("K9", key, "scan.c:%d (scanNumber)" % lp["l"],
+                          "the loop consumes letters and digits after a radix prefix without comparing their value with the radix: "
+                          "2r9 or 16rG is accepted silently (and evaluates to 0) instead of being reported as an improper number")
+    if n < 2:
+        raise AnalysisBroken("scanNumber: the loops that consume radix digits (condition mentioning isupper) were not found")
+
+
 K6_UNITS = ["include.c", "scan.c", "token.c", "syscmd.c", "linear.c", "parseby.c", "abnorm.c", "macex.c", "abcheck.c"]
 
 
@@ -664,6 +693,7 @@ def run(tier, only=None):
             rep.violation("K1", key, where, "%s: %s (%s)" % (s["expr"], s["why"], s["origin"]))
 
     k5(rep)
+    k9(rep)
     # ---- K8 ---------------------------------------------------------------
     n8 = 0
     for u in sorted(dig):
